@@ -87,6 +87,7 @@ func (m rcModel) rows() []uint64 {
 }
 
 type rcRun struct {
+	tiny    bool // cache holds at most 2 rows: only reported counts are checked (C12 is silent about rows a cache forgot)
 	t       *testing.T
 	res     *rcResult
 	seq     []string
@@ -231,6 +232,9 @@ func (rr *rcRun) checkSetFragment(f *fragment, m rcModel, lastOp string) {
 			}
 		}
 		for _, r := range wantRows {
+			if rr.tiny {
+				break
+			}
 			found := false
 			for _, p := range pairs {
 				if p.ID == r {
@@ -271,7 +275,7 @@ func rcBlockIDs(bs []FragmentBlock) []string {
 
 // checkTopN: after a recalculation the cache ranks every non-empty row exactly.
 func (rr *rcRun) checkTopN(f *fragment, m rcModel, lastOp string) {
-	if f.CacheType == CacheTypeNone {
+	if f.CacheType == CacheTypeNone || rr.tiny {
 		return
 	}
 	f.RecalculateCache()
@@ -302,10 +306,19 @@ func (rr *rcRun) checkTopN(f *fragment, m rcModel, lastOp string) {
 func (rr *rcRun) runSetSequence(rng *rand.Rand, cacheType string, shard uint64, steps int) {
 	f := mustOpenFragment("i", "f", viewStandard, shard, cacheType)
 	defer rr.closeFragment(f)
+	if rr.tiny {
+		f.CacheSize = 2
+		switch cacheType {
+		case CacheTypeRanked:
+			f.cache = NewRankCache(2)
+		case CacheTypeLRU:
+			f.cache = newLRUCache(2)
+		}
+	}
 	f.MaxOpN = 5 + rng.Intn(40) // force snapshots at different points
 	m := rcModel{}
 	base := shard * ShardWidth
-	rr.seq = []string{fmt.Sprintf("fragment(shard=%d,cache=%s,MaxOpN=%d)", shard, cacheType, f.MaxOpN)}
+	rr.seq = []string{fmt.Sprintf("fragment(shard=%d,cache=%s,tiny=%v,MaxOpN=%d)", shard, cacheType, rr.tiny, f.MaxOpN)}
 	rr.nontriv = false
 	pick := func() (uint64, uint64) {
 		return rcRows[rng.Intn(len(rcRows))], base + rcCols[rng.Intn(len(rcCols))]
@@ -690,8 +703,15 @@ func TestRcheckFragment(t *testing.T) {
 	}
 	for i := 0; i < seqs; i++ {
 		for _, ct := range []string{CacheTypeRanked, CacheTypeLRU, CacheTypeNone} {
+			rr.tiny = false
 			rr.runSetSequence(rng, ct, []uint64{0, 3}[i%2], 4+rng.Intn(11))
 			record()
+			if ct != CacheTypeNone {
+				rr.tiny = true
+				rr.runSetSequence(rng, ct, []uint64{0, 3}[i%2], 4+rng.Intn(11))
+				record()
+				rr.tiny = false
+			}
 		}
 		rr.runMutexSequence(rng, false, 3+rng.Intn(8))
 		record()
